@@ -216,6 +216,7 @@ def run(F, rep, tier):
     run_r7(F, rep)
     run_r8(F, rep)
     run_r9(F, rep)
+    run_r10(F, rep)
 
 
 def run_r7(F, rep):
@@ -357,3 +358,77 @@ def run_r9(F, rep):
                       "format_error computes the number of errors not shown as `%s`, but %s counts `%s`: the two lengths belong to different fields, so the subtraction underflows (panic) or reports a bogus count" % (
                           render(b)[:50], b[3][1], shown[b[3][1]]), "TextFormatter::format_error (mech_syntax.lib)", sample={"minuend": lhs, "shown_list": shown[b[3][1]]})
     rep.floor("C09-R9", "remaining-count subtractions", n, 1)
+
+
+def run_r10(F, rep):
+    """C09-R10: panicking element reads of the parser are behind a length guard"""
+    from lib.facts import find, walk, is_node, path_of, render
+    from lib import guards as G
+    rep.rule("C09-R10", "element reads in the parser cannot be out of bounds: (a) every read of the grapheme under the cursor `V.graphemes[V.cursor]` happens only after "
+                        "`V.is_empty()` was tested false on that path; (b) every constant-index read `X[k]` happens only where a guard on that path implies X.len() > k "
+                        "(early-return `if X.len() != n`, enclosing `if X.len() >= n`, `match X.len()`, `!X.is_empty()`); reads with a computed index are listed, not decided")
+    n_cur = n_const = n_other = 0
+    for it in F.syn("mech_syntax.lib"):
+        if it["k"] not in ("fn", "method") or not it.get("body") or "formatter" in (it.get("mod") or ""):
+            continue
+        for ix, facts in G.sites(it["body"], "index"):
+            base, idx = ix[1], ix[2]
+            where = "%s::%s (mech_syntax.lib)" % (it.get("mod") or it.get("self") or "", it["name"])
+            k = G._int(idx)
+            if is_node(idx) and idx[0] == "range":
+                n_other += 1
+                continue
+            if is_node(base) and base[0] == "field" and base[2] == "graphemes" and is_node(idx) and idx[0] == "field" and idx[2] == "cursor" and render(base[1]) == render(idx[1]):
+                n_cur += 1
+                ok = G.nonempty_fact(facts, base[1])
+                rep.check(ok, "C09-R10", "cursor-read:%s" % it["name"] if ok else "cursor-read-unguarded:%s" % it["name"],
+                          "%s reads %s with no `%s.is_empty()` test on the path: at end of input the parser panics with an index out of bounds instead of reporting an error" % (
+                              it["name"], render(ix), render(base[1])), where)
+                continue
+            if k is not None:
+                n_const += 1
+                lb = G.len_lower_bound(facts, base)
+                ok = lb > k
+                rep.check(ok, "C09-R10", "const-index:%s:%s[%d]" % (it["name"], re.sub(r"[\s&()*]", "", render(base))[:30], k) + ("" if ok else ":len>=%d" % lb),
+                          "%s reads %s where the guards on the path only imply %s.len() >= %d: an input that leaves the list shorter panics the parser (index out of bounds) instead of producing an error report" % (
+                              it["name"], render(ix), render(base), lb), where, sample={"fn": it["name"], "read": render(ix), "len_lower_bound": lb})
+                continue
+            n_other += 1
+    # (c) Option unwraps with a syntactic witness: `X.is_none() || .. X.unwrap()`, `if V.len() == 1 { V.pop().unwrap() }`
+    n_unw = n_unw_other = 0
+    for it in F.syn("mech_syntax.lib"):
+        if it["k"] not in ("fn", "method") or not it.get("body") or "formatter" in (it.get("mod") or ""):
+            continue
+        for mc, facts in G.sites(it["body"], "mcall"):
+            if mc[2] not in ("unwrap", "expect"):
+                continue
+            recv = mc[1]
+            while is_node(recv) and recv[0] == "mcall" and recv[2] in ("as_ref", "as_mut", "clone"):
+                recv = recv[1]
+            where = "%s::%s (mech_syntax.lib)" % (it.get("mod") or it.get("self") or "", it["name"])
+            if is_node(recv) and recv[0] == "mcall" and recv[2] in ("pop", "last", "first", "last_mut", "first_mut") and not recv[4]:
+                # belief rule: decided only where the function itself tests the length / emptiness of that list somewhere
+                vtxt = re.sub(r"[\s&()*]", "", render(recv[1]))
+                tested = any(x[0] == "mcall" and x[2] in ("len", "is_empty") and re.sub(r"[\s&()*]", "", render(x[1])) == vtxt for x in walk(it["body"]))
+                if not tested:
+                    n_unw_other += 1
+                    continue
+                n_unw += 1
+                lb = G.len_lower_bound(facts, recv[1])
+                rep.check(lb >= 1, "C09-R10", "unwrap:%s:%s" % (it["name"], re.sub(r"\s", "", render(recv))[:40]) + ("" if lb >= 1 else ":unguarded"),
+                          "%s unwraps %s with no guard implying %s is non-empty on that path: the parser panics instead of reporting an error" % (it["name"], render(recv), render(recv[1])), where)
+            elif is_node(recv) and recv[0] == "path" and any(
+                    c[0] == "mcall" and c[2] in ("is_none", "is_some") and render(c[1]) == render(recv) for c, _ in G.atoms(facts)) or (
+                    is_node(recv) and recv[0] == "path" and any(isinstance(x, list) and x and x[0] == "mcall" and x[2] in ("is_none", "is_some") and render(x[1]) == render(recv)
+                                                               for x in walk(it["body"]))):
+                n_unw += 1
+                ok = any(c[0] == "mcall" and render(c[1]) == render(recv) and ((c[2] == "is_none" and not pol) or (c[2] == "is_some" and pol)) for c, pol in G.atoms(facts))
+                rep.check(ok, "C09-R10", "unwrap:%s:%s" % (it["name"], render(recv)[:30]) + ("" if ok else ":unguarded"),
+                          "%s unwraps %s on a path where neither `%s.is_none()` was tested false nor `%s.is_some()` true, although the function tests it elsewhere: a None here panics the parser" % (
+                              it["name"], render(recv), render(recv), render(recv)), where)
+            else:
+                n_unw_other += 1
+    rep.note("C09-R10-unwraps", {"decided": n_unw, "not_decided (merge_tokens: C09-R4; grapheme.chars().next(); parse() result; report renderer tables)": n_unw_other})
+    rep.note("C09-R10-not-decided", "%d element reads / slices with a computed index (cursor arithmetic, line tables) are not decided by this rule" % n_other)
+    rep.floor("C09-R10", "cursor reads examined", n_cur, 100)
+    rep.note("C09-R10-constant-index-reads", n_const)
